@@ -353,7 +353,8 @@ fn run_tape_sub(
             let cfg = Config {
                 cases: per as u32,
                 failure_persistence: None,
-                max_shrink_iters: 3000,
+                // slow (crypto-heavy) sub-checks get a smaller shrinking budget
+                max_shrink_iters: if cases <= 5_000 { 400 } else { 3000 },
                 max_local_rejects: 0,
                 max_global_rejects: 0,
                 ..Config::default()
